@@ -173,6 +173,51 @@ def kronecker_job(thorough):
                         timeout=1500, split=8, cbmc_flags=["--no-malloc-may-fail"], backend="cbmc-sat-contracts",
                         note="every index i*nnz_b+j stays inside the nnz_a*nnz_b triplet; loops closed by invariants; nnz <= %d per factor; cholmod triplet primitives as nondeterministic stubs" % NZ)
 
+def flatten_job(ND, R=64, RMAX=None, content=False):
+    """contract of flatten_ndarray_to_sparse (glam.c): memory safety for every index array, no signed overflow in the flattened index, no division by zero, one triplet entry per row with the value copied; the division/remainder relation of the flattened index is decided by the exact execution (C09-glamfit-exact), not here (64-bit division circuits do not finish on any installed back end)"""
+    W = "__CPROVER_object_whole"
+    RMAX = RMAX or (1024 if ND <= 3 else 128)
+    fl = units.free_function("src/fitter/glam.c", "flatten_ndarray_to_sparse")
+    pre = r'''
+#include <stddef.h>
+#include <stdlib.h>
+#include <assert.h>
+struct ndsparse { size_t rows; size_t ndim; double* x; unsigned int** i; unsigned int* ranges; };
+typedef struct cholmod_triplet_struct { size_t nrow, ncol, nzmax, nnz; void *i, *j, *x, *z; int stype, itype, xtype, dtype; } cholmod_triplet;
+typedef struct cholmod_sparse_struct { size_t nrow, ncol; int stype; } cholmod_sparse; typedef struct cholmod_common_struct { int status; } cholmod_common;
+#define CHOLMOD_REAL 1
+#define VP_R %d
+cholmod_sparse vp_result; cholmod_triplet vp_trip; size_t vp_g; /* ghost row index */
+/* assumed contracts of cholmod: allocate_triplet yields arrays of nzmax elements; triplet_to_sparse needs nnz <= nzmax */
+cholmod_triplet* cholmod_l_allocate_triplet(size_t nrow, size_t ncol, size_t nzmax, int stype, int xtype, cholmod_common* c) {
+	vp_trip.nrow = nrow; vp_trip.ncol = ncol; vp_trip.nzmax = nzmax; vp_trip.nnz = 0;
+	vp_trip.i = malloc(nzmax*sizeof(long)); vp_trip.j = malloc(nzmax*sizeof(long)); vp_trip.x = malloc(nzmax*sizeof(double)); __CPROVER_assume(vp_trip.i && vp_trip.j && vp_trip.x); __CPROVER_assert(nzmax <= VP_R, "triplet within the modelled size"); return &vp_trip; }
+cholmod_sparse* cholmod_l_triplet_to_sparse(cholmod_triplet* T, size_t nzmax, cholmod_common* c) { __CPROVER_assert(T->nnz <= T->nzmax, "triplet not over-filled"); return &vp_result; }
+int cholmod_l_free_triplet(cholmod_triplet** T, cholmod_common* c) { *T = NULL; return 1; }
+''' % R
+    req = ["__CPROVER_requires(__CPROVER_is_fresh(array, sizeof(*array)))", "__CPROVER_requires(array->ndim == %d && array->rows <= VP_R)" % ND,
+           "__CPROVER_requires(__CPROVER_is_fresh(array->x, VP_R*sizeof(double)))", "__CPROVER_requires(__CPROVER_is_fresh(array->ranges, %d*sizeof(unsigned int)))" % ND,
+           "__CPROVER_requires(__CPROVER_is_fresh(array->i, %d*sizeof(unsigned int*)))" % ND]
+    req += ["__CPROVER_requires(__CPROVER_is_fresh(array->i[%d], VP_R*sizeof(unsigned int)))" % j for j in range(ND)]
+    req += ["__CPROVER_requires(array->ranges[%d] <= %d)" % (j, RMAX) for j in range(ND)]
+    req += ["__CPROVER_requires(ncol >= 1)"]
+    B = RMAX ** (ND - 1)
+    flat = " + ".join("(long)array->i[%d][vp_g]*%s" % (j, "*".join(["1L"] + ["(long)array->ranges[%d]" % m for m in range(j + 1, ND)])) for j in range(ND))
+    rel = "(((long*)vp_trip.i)[vp_g] * (long)ncol + ((long*)vp_trip.j)[vp_g] == %s && ((long*)vp_trip.j)[vp_g] < (long)ncol && ((double*)vp_trip.x)[vp_g] == array->x[vp_g])" % flat if content else "(((unsigned long*)vp_trip.x)[vp_g] == ((unsigned long*)array->x)[vp_g])"
+    if not content: flat = "0"
+    modeq = "1" if not content else " && ".join("moduli[%d] == %s" % (k, "*".join(["1L"] + ["(long)array->ranges[%d]" % m for m in range(k + 1, ND)])) for k in range(ND))
+    ct = "static cholmod_sparse* flatten_ndarray_to_sparse(struct ndsparse *array, size_t nrow, size_t ncol, cholmod_common* c)\n" + "\n".join(req) + "\n__CPROVER_assigns(%s(&vp_trip))\n__CPROVER_ensures(__CPROVER_return_value != NULL && vp_trip.nnz == array->rows && vp_trip.nrow == nrow && vp_trip.ncol == ncol)\n__CPROVER_ensures(vp_g < array->rows ==> %s)\n__CPROVER_ensures(__CPROVER_return_value == NULL)  /* canary */\n;\n" % (W, rel)
+    modb = " && ".join("(i < %d ==> (moduli[%d] >= 0 && moduli[%d] <= %d))" % (k, k, k, RMAX ** (ND - 1 - k)) for k in range(ND - 1)) or "1"
+    allb = " && ".join("(moduli[%d] >= 0 && moduli[%d] <= %d)" % (k, k, RMAX ** (ND - 1 - k)) for k in range(ND))
+    partial = "1" if not content else " && ".join("(j == %d ==> k == %s)" % (n, " + ".join(["0L"] + ["(long)array->i[%d][i]*moduli[%d]" % (m, m) for m in range(n)])) for n in range(ND + 1))
+    loops = [("for", "__CPROVER_assigns(i, %s(moduli))\n__CPROVER_loop_invariant(i >= -1 && i <= %d && moduli[%d] == 1 && %s)\n__CPROVER_decreases(i + 1)" % (W, ND - 2, ND - 1, modb)),
+             ("for", "__CPROVER_assigns(i, j, k, %s(vp_trip.i), %s(vp_trip.j), %s(vp_trip.x))\n__CPROVER_loop_invariant(i >= 0 && (size_t)i <= array->rows && array->rows <= VP_R && array->ndim == %d && trip == &vp_trip && ncol >= 1 && %s && %s && (vp_g < (size_t)i ==> %s))\n__CPROVER_decreases(array->rows - (size_t)i)" % (W, W, W, ND, allb, modeq, rel)),
+             ("for", "__CPROVER_assigns(j, k)\n__CPROVER_loop_invariant(j >= 0 && j <= %d && k >= 0 && k <= j * 4294967296L * %d && (size_t)i < array->rows && %s && %s && %s)\n__CPROVER_decreases(%d - j)" % (ND, B, allb, modeq, partial, ND))]
+    tu = pre + ct + fl.text(loops) + "void h_fl(void){ struct ndsparse* a; size_t nr, nc; cholmod_common c; flatten_ndarray_to_sparse(a, nr, nc, &c); }\n"
+    return fl, vlib.Job("C09-flatten_ndarray_to_sparse-ndim%d" % ND, tu, "h_fl", enforce="flatten_ndarray_to_sparse", expect_fail=[r"flatten_ndarray_to_sparse\.postcondition\.3$"],
+                        must_have=["loop_invariant_step", r"cholmod_l_triplet_to_sparse\.assertion"], timeout=900, split=8, cbmc_flags=["--no-malloc-may-fail"], backend="cbmc-sat-contracts",
+                        note="memory safety, no signed overflow, no division by zero (ncol >= 1) for every index array; rows <= %d symbolic, ranges <= %d, ndim = %d; loops closed by invariants" % (R, RMAX, ND))
+
 DESIGN = None
 def main():
     global PROG, DESIGN
@@ -204,7 +249,8 @@ def main():
         rep.samples += [o[0] for o in flat[:2]]
     # the per-dimension penalty terms fit() requests (order, penalty order, smoothing, monotonic flag): valid cases of the C13 harness
     kpf, kpj = kronecker_job(thorough)
-    vlib.run_jobs([kpj], 1); rep.add_jobs([kpj]); rep.functions.append(kpf.info())
+    fjs = [flatten_job(nd, R=128 if thorough else 64) for nd in (1, 2, 3, 4)]
+    vlib.run_jobs([kpj] + [j for _, j in fjs], min(vlib.NCORES, 5)); rep.add_jobs([kpj] + [j for _, j in fjs]); rep.functions.append(kpf.info()); rep.functions.append(fjs[0][0].info())
     import c13_fit, penalty_matrix
     c13_fit.add(rep, thorough, only_valid=True, name="C09-fit-penalty-terms")
     penalty_matrix.add(rep, thorough, monotonic=False, name="C09-penalty-matrix")
